@@ -47,6 +47,16 @@ STRENGTHENED = {
  "C17-r3-m3": "round-off sized negative weight next to weights summing to 1: no object may hold a negative probability",
  "C19-r4-m2": "like-named symbols with assumptions converted BETWEEN a conversion and its translation back",
  "C20-r4-m1": "ValueSemantics.tla: augmented assignment (p_iadd, p_imul) as operations, a term on another string among the seeds",
+ "C01-r5-m3": "gates at angles far below the ring's grid (1.8e-5 .. 2e-7 rad): single application and 200 in a row against the closed form",
+ "C07-r5-m2": "matrix objects a caller holds: received, another gate of the same shape evaluated, the first object compared again; entry overwritten",
+ "C07-r5-m3": "quick-tier run of the chains power(1/q) - controlled - exp over X and CNOT (3-qubit gates)",
+ "C11-r5-m3": "coefficient family with an imaginary part that is small only relative to the real part (1000 + 0.005j)",
+ "C13-r5-m3": "scale_and_discretize at large totals (shares of 10^4 .. 10^6)",
+ "C15-r5-m2": "every result of a first call edited in place, the same request repeated",
+ "C15-r5-m3": "operators with coefficients of size 1e-9 on basis states",
+ "C17-r5-m1": "the returned marginal must not share its dictionary with the source; editing it leaves the source intact",
+ "C19-r5-m2": "a numeric dialect, then the sympy dialect again, after a refused (nested) translation",
+ "C12-r6-m3": "probabilities of the numeric entries of a state that is still symbolic",
 }
 NOT_A_VIOLATION = {
  "C08-r3-m3": "not a violation under the documented reading of controlled(): the unchanged Circuit.controlled already drops idle declared qubits, and the check compares both sides padded to a common width (the statement does not fix the width of a controlled circuit)",
